@@ -30,7 +30,7 @@ ASSUMPTIONS = [
     'dropped (the implementation filters them; the statement is silent)',
 ]
 ANCHORS = ['Table.subsample']
-REQUIRED = ['second_call_after_inplace_edit', 'without_replacement', 'with_replacement', 'by_id',
+REQUIRED = ['generate_subsamples_tables', 'seed_generator_object', 'second_call_after_inplace_edit', 'without_replacement', 'with_replacement', 'by_id',
             'axis_observation', 'axis_sample', 'vectors_below_n_dropped',
             'seed_reproducibility_checked', 'seed_zero_checked',
             'stat_draws', 'layout_csc_seen']
@@ -202,16 +202,34 @@ def run_invariants(ctx, index):
     n = max(1, min(r.choice(cands), 5000))
     if mode == 'by_id':
         n = r.randint(1, len(spec.ids(axis)) + 2)
-    seed = r.choice([0, 0, 1, 1234, r.randrange(2 ** 31), None])
+    seed = r.choice([0, 0, 1, 1234, r.randrange(2 ** 31), None,
+                     'np.int64', 'generator'])
+    seedrepr = seed
+    if seed == 'np.int64':
+        sv = r.randrange(2 ** 31)
+        mkseed = lambda: np.int64(sv)      # noqa: E731
+        seedrepr = 'np.int64(%d)' % sv
+    elif seed == 'generator':
+        sv = r.randrange(2 ** 31)
+        # a fresh, identically seeded numpy Generator for every call
+        mkseed = lambda: np.random.default_rng(sv)     # noqa: E731
+        seedrepr = 'default_rng(%d)' % sv
+        ctx.count('seed_generator_object')
+    else:
+        mkseed = lambda: seed              # noqa: E731
     t = gen.apply_layout(ctx.biom, spec, recipe, r)
     st = note_layout(ctx, t)
     desc = {'table': spec.describe(), 'recipe': recipe, 'layout': st,
-            'n': n, 'axis': axis, 'mode': mode, 'seed': seed}
+            'n': n, 'axis': axis, 'mode': mode, 'seed': seedrepr}
     ctx.count('axis_' + axis)
     before = snap.snap(t)
-    kw = dict(axis=axis, by_id=(mode == 'by_id'),
-              with_replacement=(mode == 'with'), seed=seed)
-    res = t.subsample(n, **kw)
+    kw0 = dict(axis=axis, by_id=(mode == 'by_id'),
+               with_replacement=(mode == 'with'))
+
+    def kwf():
+        # every call gets its own seed object
+        return dict(kw0, seed=mkseed())
+    res = t.subsample(n, **kwf())
     if res is t:
         raise Violation('C12/returned-input', 'case=%r' % (desc,))
     oracles.unchanged(t, before, 'C12/input-modified', desc, 'input table')
@@ -225,8 +243,8 @@ def run_invariants(ctx, index):
     if seed is not None:
         t2 = gen.apply_layout(ctx.biom, spec, r.choice(gen.LAYOUTS),
                               ctx.rng(index, 't2'))
-        res2 = t2.subsample(n, **kw)
-        res3 = t.subsample(n, **kw)
+        res2 = t2.subsample(n, **kwf())
+        res3 = t.subsample(n, **kwf())
         for other, what in ((res2, 'an equal table in another layout'),
                             (res3, 'the same table again')):
             d = snap.diff(snap.snap(res), snap.snap(other))
@@ -251,10 +269,26 @@ def run_invariants(ctx, index):
         if not snap.bits_equal(spec2.D, exp):
             raise Violation('C12/harness-edit', 'in-place transform gave an '
                             'unexpected table; case=%r' % (desc,))
-        res4 = t.subsample(n, **kw)
+        res4 = t.subsample(n, **kwf())
         d2 = dict(desc, after_inplace_edit=True)
         check_counts(ctx, spec2, res4, n, axis, mode == 'with', d2)
         ctx.count('second_call_after_inplace_edit')
+    if index % 7 == 2 and mode != 'with':
+        # the endless generator of subsamples: every table it yields is a
+        # subsample in the same sense
+        from biom.util import generate_subsamples
+        src = gen.apply_layout(ctx.biom, spec, recipe, ctx.rng(index, 'g'))
+        b0 = snap.snap(src)
+        it = generate_subsamples(src, n, axis, mode == 'by_id')
+        for q in range(3):
+            rs = next(it)
+            dq = dict(desc, via='generate_subsamples #%d' % q)
+            if mode == 'by_id':
+                check_by_id(ctx, spec, rs, n, axis, dq)
+            else:
+                check_counts(ctx, spec, rs, n, axis, False, dq)
+            oracles.unchanged(src, b0, 'C12/input-modified', dq)
+        ctx.count('generate_subsamples_tables', 3)
     tots = V.sum(axis=1)
     ctx.case(desc, bool((np.any(tots > n) and np.any(tots < n)) or
                         axis == 'observation' or mode != 'without'))
